@@ -417,11 +417,30 @@ func partAuth(c *check.Ctx, a *acc) {
 		runAuthTarget(c, t, st, []string{"ws", "smoke"})
 		set("first-secret-0123456789")
 		runAuthTarget(c, t, st, []string{"ws", "smoke"})
+		// one token, byte for byte the same, presented before the rotation (admitted),
+		// while the server holds no secret, after the rotation, and once the first
+		// secret is issued again: admission follows the secret currently held, never
+		// an earlier verdict on the same string
 		old := tokenCatalogue("first-secret-0123456789")[0].Token
+		same := func(phase string) {
+			for _, ep := range []string{"ws", "smoke"} {
+				probeAuth(c, t, ep, carrierCase{Name: "rotation/same-token/" + phase, Header: old}, st)
+				probeAuth(c, t, ep, carrierCase{Name: "rotation/same-token/" + phase, Query: old}, st)
+				probeAuth(c, t, ep, carrierCase{Name: "rotation/same-token/" + phase, Cookie: old}, st)
+			}
+		}
+		same("before")
+		set("")
+		same("secret-cleared")
 		set("second-secret-9876543210") // rotation
+		same("after-rotation")
 		runAuthTarget(c, t, st, []string{"ws", "smoke"})
 		probeAuth(c, t, "ws", carrierCase{Name: "rotation/old-token", Header: old}, st)
 		probeAuth(c, t, "smoke", carrierCase{Name: "rotation/old-token", Query: old}, st)
+		set("first-secret-0123456789")
+		same("first-secret-issued-again")
+		set("")
+		same("secret-cleared-again")
 		p.Kill()
 	}
 	// ---- E7: the real binary behind a fake discovery service (mounting in cmd/main.go)
@@ -472,6 +491,11 @@ func partAuth(c *check.Ctx, a *acc) {
 		// 3. rotation: withhold health checks until the server re-registers
 		first := hds.Secret()
 		oldTok := tokenCatalogue(first)[0].Token
+		for _, ep := range []string{"ws", "smoke"} {
+			probeAuth(c, t, ep, carrierCase{Name: "rotation/same-token/before", Header: oldTok}, st)
+			probeAuth(c, t, ep, carrierCase{Name: "rotation/same-token/before", Query: oldTok}, st)
+			probeAuth(c, t, ep, carrierCase{Name: "rotation/same-token/before", Cookie: oldTok}, st)
+		}
 		hds.SetHealthChecks(false)
 		rotated := false
 		for i := 0; i < 1500; i++ {
@@ -487,8 +511,11 @@ func partAuth(c *check.Ctx, a *acc) {
 			return
 		}
 		c.Coverage["real_binary_secret_rotations"] = len(hds.Secrets()) - 1
-		probeAuth(c, t, "ws", carrierCase{Name: "rotation/old-token", Header: oldTok}, st)
-		probeAuth(c, t, "smoke", carrierCase{Name: "rotation/old-token", Header: oldTok}, st)
+		for _, ep := range []string{"ws", "smoke"} {
+			probeAuth(c, t, ep, carrierCase{Name: "rotation/same-token/after-rotation", Header: oldTok}, st)
+			probeAuth(c, t, ep, carrierCase{Name: "rotation/same-token/after-rotation", Query: oldTok}, st)
+			probeAuth(c, t, ep, carrierCase{Name: "rotation/same-token/after-rotation", Cookie: oldTok}, st)
+		}
 		runAuthTarget(c, t, st, []string{"ws"})
 	}
 	realPart()
